@@ -1,6 +1,7 @@
 package chain
 
 import (
+	"context"
 	"fmt"
 	"net/http"
 	"net/url"
@@ -80,15 +81,16 @@ func ModelRun(m *MCtx, hooks Hooks) (escaped any) {
 
 // World owns the scripts and the per-request state of the real side.
 type World struct {
-	mu         sync.Mutex
-	nextID     int
-	reqs       map[string]*ReqState
-	nreq       int
-	Sched      *Sched              // non-nil: handlers park at OpYield
-	Router     *rux.Router         // set by Program.Apply: the router nested requests go to
-	Subs       bool                // nested requests (OpSub) enabled
-	lent       [][]rux.HandlerFunc // handler slices handed to registration calls (see reuseLentSlices)
-	lateCopies []*rux.Context      // copies kept by finished requests (their jobs go on reporting, see Handler)
+	mu          sync.Mutex
+	nextID      int
+	reqs        map[string]*ReqState
+	nreq        int
+	Sched       *Sched              // non-nil: handlers park at OpYield
+	Router      *rux.Router         // set by Program.Apply: the router nested requests go to
+	Subs        bool                // nested requests (OpSub) enabled
+	CancelEvery int                 // > 0: every n-th request arrives with an already cancelled context
+	lent        [][]rux.HandlerFunc // handler slices handed to registration calls (see reuseLentSlices)
+	lateCopies  []*rux.Context      // copies kept by finished requests (their jobs go on reporting, see Handler)
 }
 
 // ReqState is the real-side state of one in-flight request.
@@ -285,6 +287,13 @@ func (w *World) NewRequest(method, path string, faults ...Fault) *ReqState {
 	id := fmt.Sprintf("q%d", w.nreq)
 	st := &ReqState{ID: id, Tr: &Trace{}, Rec: NewRec(faults...), world: w}
 	st.Req = &http.Request{Method: method, URL: &url.URL{Path: path}, Header: http.Header{"X-Req": {id}}, Proto: "HTTP/1.1", ProtoMajor: 1, ProtoMinor: 1}
+	if w.CancelEvery > 0 && w.nreq%w.CancelEvery == 0 {
+		// the client has gone away already: the request's context is cancelled.  A router has no business looking
+		// at that - the chain runs as it always does (handlers decide for themselves what to do about it)
+		ctx, cancel := context.WithCancel(context.Background())
+		cancel()
+		st.Req = st.Req.WithContext(ctx)
+	}
 	w.reqs[id] = st
 	w.mu.Unlock()
 	return st
